@@ -441,6 +441,26 @@ def w_trees(ctx, rng, i):
             y, my = make_operand(rng, ok_, ocls, on, DTYPES[int(rng.integers(3))], bool(rng.integers(2)))
             prog.append((op, ok_, on != cur_n, bool(getattr(y, "noise", None) is not None)))
             ctx.describe(cls=cls, leaf_len=n, dtype=dtype, program=prog)
+            alias, a_sig, a_noise = x, x.signal.copy(), None if x.noise is None else x.noise.copy()
+            if op in ("add", "sub", "mul") and rng.integers(4) == 0:
+                # augmented assignment on a second name: python falls back to the binary operator, the operand object must not change
+                res = model_addsub(m, my, -1 if op == "sub" else 1, False) if op != "mul" else None
+                z = x
+                try:
+                    with core.quiet():
+                        if op == "add":
+                            z += y
+                        elif op == "sub":
+                            z -= y
+                        else:
+                            z *= y
+                except ValueError:
+                    z = None
+                if z is not None:
+                    ctx.check("op.augmented_operand", z is not alias and np.array_equal(alias.signal, a_sig) and (a_noise is None or np.array_equal(alias.noise, a_noise)),
+                              f"augmented {op} modified the object that was the left operand")
+                    if res is not None and res[0] == "ok" and isinstance(z, T.electrical_signal):
+                        compare(ctx, z, res[1], f"tree step {step} augmented {op}")
             r, mm = run_binop(ctx, x, m, op, y, my, f"tree step {step} {prog[-1]}")
             if r is None:
                 continue
